@@ -1031,7 +1031,6 @@ def exec (md : Module) (ins : Instr) (orc : Oracle) : M Unit := do
     if sref == 0 then raise 8 else
     let s ← getStr sref
     if !Idx.stringDerefOk s.length index.toInt then raise 3 else
-    if index.toInt < 0 then crash "string read before its buffer" else
     let c := s.getD index.toNat 0
     let ca ← alloc (.char (BitVec.ofNat 8 c.toNat))
     setSp (sp - 1)
